@@ -135,7 +135,8 @@ func checkIRIText(iri string) error {
 }
 
 func isLiteral(s string) bool {
-	return strings.HasPrefix(s, `"`) && strings.HasSuffix(s, `"`)
+	// A literal may be followed by a language tag or a datatype.
+	return strings.HasPrefix(s, `"`)
 }
 
 // Parts returns the parts of the term and the kind of the term.
